@@ -505,12 +505,14 @@ impl Router {
                 if let Some(cursor) = retransmissions.get(&request.filter_idx) {
                     request.cursor = *cursor;
                     // reset the group cursor
-                    if let Some(group_name) = &request.group {
+                    // the group is gone if this was its last member
+                    if let Some(group) = request
+                        .group
+                        .as_ref()
+                        .and_then(|name| self.shared_subscriptions.get_mut(name))
+                    {
                         // TODO: Test this more
-                        self.shared_subscriptions
-                            .get_mut(group_name)
-                            .expect("group must exists")
-                            .cursor = *cursor;
+                        group.cursor = *cursor;
                     }
                 }
             }
